@@ -5,8 +5,13 @@ from vlib import *
 
 PRELUDE = """local T = {} for i = 1, %(ms)d do T[i] = {} end
 emit("tables", %(tl)s)
-local function mk(h, id)
-  return setmetatable({}, {__close = function(_, e) emit("tbc", id, e) if h == "raise" then error("R" .. id, 0) end end})
+local mk
+mk = function(h, id)
+  return setmetatable({}, {__close = function(_, e)
+    emit("tbc", id, e)
+    if h == "raise" then error("R" .. id, 0) end
+    if h == "raisetbc" then local w <close> = mk("ok", id + 100) error("R" .. id, 0) end
+  end})
 end
 local function once() local done = false return function() if not done then done = true return 1 end end end
 local function mark(k) emit("tail", k) return k end
@@ -52,7 +57,8 @@ def closer(kind, k, label=None, hk="-", battery=False):
     elif kind == "pcall":
         c = ["end))", 'emit("pcall", %d, table.unpack(r%d, 1, r%d.n))' % (k, k, k)] + ([bat] if bat else [])
     elif kind == "xpcall":
-        h = ('function(e) emit("handler", %d, e) return "H%d" end' % (k, k)) if hk == "val" else ('function(e) emit("handler", %d, e) end' % k)
+        h = {"val": 'function(e) emit("handler", %d, e) return "H%d" end' % (k, k),
+             "nilval": 'function(e) emit("handler", %d, e) return nil, "H%d" end' % (k, k)}.get(hk, 'function(e) emit("handler", %d, e) end' % k)
         c = ["end, %s))" % h, 'emit("xpcall", %d, table.unpack(r%d, 1, r%d.n))' % (k, k, k)] + ([bat] if bat else [])
     elif kind == "co":
         c = ["end)", "local r%d = table.pack(coroutine.resume(co%d))" % (k, k),
@@ -108,7 +114,7 @@ def render(line, ms, battery=False):
             continue
         if act == "decl":
             h = a["h"]
-            rhs = {"ok": 'mk("ok", %d)' % k, "raise": 'mk("raise", %d)' % k, "nil": "nil", "false": "false", "nometa": "{}"}[h]
+            rhs = {"ok": 'mk("ok", %d)' % k, "raise": 'mk("raise", %d)' % k, "raisetbc": 'mk("raisetbc", %d)' % k, "nil": "nil", "false": "false", "nometa": "{}"}[h]
             put(ind + "local x%d <close> = %s" % (k, rhs))
         elif act == "end":
             pass
